@@ -769,9 +769,57 @@ def rule_alias_update(repo: Repo, rep: Report) -> int:
     return n
 
 
+def rule_stage_truthiness(repo: Repo, rep: Report) -> int:
+    """TRUTHY: a composite decides whether an optional stage is present by testing the stage object itself
+    (`if self.aggregator:`).  That is "is not None" only while every stage object is truthy: torch modules define neither
+    __bool__ nor __len__.  A __len__ / __bool__ on one of the library's own model base classes makes a model with no steps
+    falsy - such a stage (e.g. a ParallelModel, which keeps its branches elsewhere, used as aggregator) is then silently
+    skipped and the declared composition is not what runs.  Decided as a pair: truthiness tests on stage attributes in the
+    composite forwards x __len__ / __bool__ definitions in kaira/models/base.py and kaira/models/generic/*."""
+    sites = []
+    for file, qual in ((MAC, "MultipleAccessChannelModel.forward"), (WZ, "WynerZivModel.forward"), (FB, "FeedbackChannelModel.forward"), (SEQ, "SequentialModel.forward"), (PAR, "ParallelModel.forward"), (BR, "BranchingModel.forward")):
+        fi = repo.func(file, qual)
+        for t in ast.walk(fi.node):
+            tests = []
+            if isinstance(t, (ast.If, ast.While, ast.IfExp)):
+                tests = [t.test]
+            elif isinstance(t, ast.BoolOp):
+                tests = list(t.values)
+            for e in tests:
+                if isinstance(e, ast.UnaryOp) and isinstance(e.op, ast.Not):
+                    e = e.operand
+                ch = attr_chain(e) if isinstance(e, ast.Attribute) else None
+                if ch and ch.startswith("self.") and ch.count(".") == 1 and not any(w in ch for w in ("training", "steps", "branches", "_", "max_workers", "return")):
+                    # a collection of stages (ModuleList / list: indexed, iterated or measured in this function) is tested for emptiness, not for presence
+                    coll = any((isinstance(u, ast.Subscript) and attr_chain(u.value) == ch) or (isinstance(u, (ast.For, ast.comprehension)) and any(attr_chain(y) == ch for y in ast.walk(u.iter) if isinstance(y, ast.Attribute))) or (isinstance(u, ast.Call) and call_name(u) == "len" and u.args and attr_chain(u.args[0]) == ch) for u in ast.walk(fi.node))
+                    if not coll:
+                        sites.append((fi, e, ch))
+    falsy = []
+    for mi in repo.modules.values():
+        if mi.relpath == "kaira/models/base.py" or mi.relpath.startswith("kaira/models/generic/"):
+            for ci in mi.classes.values():
+                for nm in ("__len__", "__bool__"):
+                    if nm in ci.methods:
+                        falsy.append((ci, ci.methods[nm]))
+    seen = set()
+    n = 0
+    for fi, e, ch in sites:
+        if (fi.qualname, ch) in seen:
+            continue
+        seen.add((fi.qualname, ch))
+        n += 1
+        if falsy:
+            ci, m = falsy[0]
+            rep.violation("TRUTHY", fi, f"presence of the stage `{ch}` tested by truthiness", f"`{unparse(e)}` is used as a condition, and {ci.name}.{m.name} ({ci.file}) makes a model of that family falsy when it has no steps: such a stage is skipped although it was declared (use `is not None`, or keep models always truthy)", node=e)
+        else:
+            rep.ok("TRUTHY", fi, f"{fi.qualname}: `{ch}` tested by truthiness; no model base class defines __len__ / __bool__", "every stage object is truthy: the test means `is not None`", node=e, nontrivial=False)
+    return n
+
+
 def run(repo: Repo, rep: Report, tier: str) -> None:
     n = rule_seq(repo, rep)
     rule_alias_update(repo, rep)
+    rule_stage_truthiness(repo, rep)
     n += rule_stage_lists(repo, rep)
     n += rule_mac(repo, rep)
     n += rule_wz(repo, rep)
